@@ -240,6 +240,48 @@ func (r *R) state(ctx sdk.Context) string {
 	return fmt.Sprintf("h=%d seq=%d pools=%s farmers=%s queue=%s bals=%s", ctx.BlockHeight(), k.GetSequence(ctx), j(ps), j(fs), j(qs), j(bs))
 }
 
+// genesisLine renders the real exported genesis: pools in the document's own order, farmer
+// records as a sorted set (their real order is that of the bech32 address bytes; `fiorder`
+// reports whether the real list is in strictly ascending store-key order), escrow count.
+func (r *R) genesisLine(gs *farmtypes.GenesisState) string {
+	var ps, fs []string
+	for _, p := range gs.Pools {
+		var rs []string
+		for _, ru := range p.Rules {
+			rs = append(rs, fmt.Sprintf("%s:%s:%s:%s:%s", ru.Reward, ru.TotalReward, ru.RemainingReward, ru.RewardPerBlock, ru.RewardPerShare.BigInt().String()))
+		}
+		rules := "-"
+		if len(rs) > 0 {
+			rules = strings.Join(rs, ";")
+		}
+		ed := 0
+		if p.Editable {
+			ed = 1
+		}
+		ps = append(ps, fmt.Sprintf("%s|%s|%s|%d|%d|%d|%d|%s|%s|%s", p.Id, r.sym(p.Creator), hx.Dash(p.Description), p.StartHeight, p.EndHeight,
+			p.LastHeightDistrRewards, ed, p.TotalLptLocked.Denom, p.TotalLptLocked.Amount, rules))
+	}
+	order := "ok"
+	prev := ""
+	for i, f := range gs.FarmInfos {
+		fs = append(fs, fmt.Sprintf("%s|%s|%s|%s", r.sym(f.Address), f.PoolId, f.Locked, coinsStr(f.RewardDebt, ";")))
+		key := f.Address + f.PoolId
+		if i > 0 && !(prev < key) {
+			order = "bad"
+		}
+		prev = key
+	}
+	sort.Strings(fs)
+	j := func(x []string) string {
+		if len(x) == 0 {
+			return "-"
+		}
+		return strings.Join(x, ",")
+	}
+	return fmt.Sprintf("seq=%d fee=%s tax=%s maxcat=%d escrow=%d fiorder=%s pools=%s farmers=%s", gs.Sequence, gs.Params.PoolCreationFee.Amount,
+		gs.Params.TaxRate.BigInt().String(), gs.Params.MaxRewardCategories, len(gs.Escrow), order, j(ps), j(fs))
+}
+
 // parseCoins: "-" = nil (field absent); otherwise "d:n,d:n" kept in the given order.
 func parseCoins(s string) sdk.Coins {
 	if s == "-" || s == "" {
@@ -269,6 +311,34 @@ func (r *R) Exec(ctx sdk.Context, line string) (sdk.Context, string) {
 	a := hx.Args(f[2:])
 	var msg sdk.Msg
 	switch f[1] {
+	case "export":
+		gs := farmmod.ExportGenesis(ctx, r.env.Farm)
+		v := "ok"
+		if p, _ := hx.NoPanic(func() {
+			if err := farmtypes.ValidateGenesis(*gs); err != nil {
+				v = "err"
+			}
+		}); p {
+			v = "panic"
+		}
+		return ctx, fmt.Sprintf("ok validate=%s %s", v, r.genesisLine(gs))
+	case "reimport":
+		gs := farmmod.ExportGenesis(ctx, r.env.Farm)
+		class, _ := hx.Try(ctx, func(c sdk.Context) error {
+			st := c.KVStore(r.env.App.GetKey(farmtypes.StoreKey))
+			it := storetypes.KVStorePrefixIterator(st, nil)
+			var keys [][]byte
+			for ; it.Valid(); it.Next() {
+				keys = append(keys, append([]byte{}, it.Key()...))
+			}
+			it.Close()
+			for _, k := range keys {
+				st.Delete(k)
+			}
+			farmmod.InitGenesis(c, r.env.Farm, *gs)
+			return nil
+		})
+		return ctx, class + " reward=- " + r.state(ctx)
 	case "end_block":
 		n, err := strconv.Atoi(a["n"])
 		if err != nil || n < 1 {
